@@ -457,6 +457,55 @@ def expected_ids(case):
     return sorted(out)
 
 
+def vote_diagnosis(case):
+    """Why is the initial base-station estimate wrong?  Re-runs the estimator's own vote on the error-free samples and
+    compares with the truth.  Returns
+      'vote_right'             every voted relative station position is within 1 cm of the truth
+      'mirror_bucket_outvotes' for some station pair the true candidates fill one bucket, unmixed, one per sample,
+                               and ANOTHER bucket (mirror candidates only) holds more entries and wins the vote
+      'vote_polluted'          otherwise (the winning bucket mixes true and mirror candidates, ...)
+      None                     the estimator's internals could not be driven (refactored)."""
+    try:
+        import warnings
+        import numpy as np
+        from cflib.localization.ippe_cf import IppeCf
+        from cflib.localization.lighthouse_initial_estimator import LighthouseInitialEstimator as E
+        from cflib.localization.lighthouse_sample_matcher import LighthouseSampleMatcher
+        from cflib.localization.lighthouse_types import LhDeck4SensorPositions
+        S = LhDeck4SensorPositions.positions
+        with warnings.catch_warnings():
+            warnings.simplefilter('ignore')
+            matched = LighthouseSampleMatcher.match(measurements(case), max_time_diff=case.get('max_time_diff', 0.02),
+                                                    min_nr_of_bs_in_match=case.get('min_bs', 2))
+            bs = {int(b): _pose(v) for b, v in case['bs'].items()}
+            perms = {}
+            for smp in matched:
+                sols = {}
+                for b, ang in smp.angles_calibrated.items():
+                    sols[b] = E._convert_estimates_to_cf_reference_frame(IppeCf.solve(S, ang.projection_pair_list()))
+                E._add_solution_permutations(sols, perms)
+            voted = E._find_most_likely_positions(perms)
+        worst = 'vote_right'
+        for pair, lists in perms.items():
+            true = bs[int(pair[0])].inv_rotate_translate_pose(bs[int(pair[1])]).translation
+            if float(np.linalg.norm(voted[pair] - true)) <= 1e-2:
+                continue
+            buckets = [[], [], [], []]
+            E._map_positions_to_ref(lists[0], lists, buckets)
+            n_true = [sum(1 for q in b if float(np.linalg.norm(q - true)) < 1e-3) for b in buckets]
+            lens = [len(b) for b in buckets]
+            home = max(range(4), key=lambda i: n_true[i])
+            if (n_true[home] == len(lists) and lens[home] == len(lists) and sum(n_true) == len(lists)
+                    and max(lens) > lens[home]):
+                if worst == 'vote_right':
+                    worst = 'mirror_bucket_outvotes'
+            else:
+                worst = 'vote_polluted'
+        return worst
+    except Exception:  # noqa
+        return None
+
+
 def judge(case, res):
     """The property text applied to one pipeline result.  Returns None (holds) or (class, expected, observed, detail)."""
     comps = linked_components([s for s in case['vis'] if len(set(s)) >= 2])
@@ -487,8 +536,16 @@ def judge(case, res):
             return ('exact_ippe_wrong_answer', exp, obs, 'wrong although IPPE was replaced by the exact pose')
         gb, gc = res.get('guess_bs', [0, 0]), res.get('guess_cf', [0, 0])
         if gb[0] > 1e-2 or gb[1] > 1e-2:
-            return ('mirror_vote_wrong_initial_bs_pose', exp, obs,
-                    'the initial estimate of a base-station pose is already off by %.3g m / %.3g rad' % tuple(gb))
+            why = vote_diagnosis(case)
+            obs['vote_diagnosis'] = why
+            det = 'the initial estimate of a base-station pose is already off by %.3g m / %.3g rad' % tuple(gb)
+            if why == 'vote_right':
+                return ('initial_bs_pose_wrong_although_vote_right', exp, obs,
+                        det + '; the mirror vote itself returns the true relative station positions')
+            if why == 'mirror_bucket_outvotes':
+                return ('mirror_bucket_outvotes_true_bucket', exp, obs,
+                        det + '; the true candidates fill one unmixed bucket, a bucket of mirror candidates holds more')
+            return ('mirror_vote_wrong_initial_bs_pose', exp, obs, det)
         if gc[1] > 1e-1 or gc[0] > 1e-1:
             return ('mirror_choice_wrong_initial_cf_pose', exp, obs,
                     'base-station guess fine, but the initial estimate of a Crazyflie pose is off by %.3g m / %.3g rad'
